@@ -11,19 +11,8 @@
 (***************************************************************************)
 EXTENDS Ops
 
-\* C12: at precisions 1..3 the Newton iteration of inverse() stops when two successive p-digit roundings
-\* agree, which can happen before convergence: the result then has the right sign and is still within TWO
-\* units of its p-th digit of 1/x (observed: exactly one unit off, e.g. 1/5e20 -> 1e-21 at p = 1, Down),
-\* including for reciprocals that terminate within p digits.
-KF_C12_SmallPrecision(op, x, p, r, why) ==
-  /\ op \in {"inverse", "div"}
-  /\ p <= 3
-  /\ why \in {"one-unit-or-more-off", "terminating-reciprocal-not-exact"}
-  /\ IsD(r)
-  /\ LET y == DecOf(r.d)
-         u == Ulp(-(AdjInv(x) - p + 1))
-     IN /\ y.s = x.s
-        /\ DCmp(DAbs(DSub(DMul(x, y), DOne)), DMul(DAbs(x), DAdd(u, u))) < 0
+\* (The former deviation KF_C12_SmallPrecision - inverse() stopping before convergence at precisions 1..3 - was
+\*  removed when the defect was repaired in the crate; such an outcome is a violation again.)
 
 \* C17: a JSON number that is first parsed into a serde_json::Value and then converted with from_value reaches
 \* the crate as a binary float (serde_json's Number::deserialize_any tries u64, i64, f64 before handing over
